@@ -308,6 +308,8 @@ theorem libCall_succ {d : Nat} (ih : LibP Q cx call ρ d) (name : String) (args 
       exact ⟨β', hle, .cons rfl hv, hs⟩
     · obtain ⟨β', hle, hv, hs⟩ := hr
       exact ⟨β', hle, .cons rfl (.cons hv .nil), hs⟩
+    · exact hr
+    · exact hr
   · -- error
     exact RRel.err h0 h
   · -- assert
